@@ -8,8 +8,9 @@ use crate::data_types::credential::CredentialValues;
 use crate::data_types::w3c::credential_attributes::CredentialSubject;
 
 pub use crate::services::helpers::{
-    attr_common_view, encode_credential_attribute, get_non_revoked_interval,
-    get_requested_non_revoked_interval,
+    attr_common_view, build_credential_schema, build_credential_values,
+    build_non_credential_schema, build_sub_proof_request, encode_credential_attribute,
+    get_non_revoked_interval, get_requested_non_revoked_interval,
 };
 
 pub use crate::utils::query::{AbstractQuery, Query};
